@@ -33,7 +33,7 @@ def random_nevra(rng, src):
     seg = lambda: rstr(rng, "abcxyzABC0123456789._+", 1, 5)
     name = "-".join([seg() for _ in range(rng.randint(1, 3))])
     arch = rng.choice(["src", "nosrc"]) if src else rng.choice(_ALL_ARCHES)
-    s = "%s-%s:%s-%s.%s" % (name, rng.choice(["0", "1", "12", "03"]), rstr(rng, "0123456789.abc~^_+", 1, 6), rstr(rng, "0123456789.elfc_+", 1, 6), arch)
+    s = "%s-%s:%s-%s.%s" % (name, rng.choice(["0", "1", "12", "03", "2147483648", "4294967295", "10000000000", "18446744073709551616"]), rstr(rng, "0123456789.abc~^_+", 1, 6), rstr(rng, "0123456789.elfc_+", 1, 6), arch)
     return rng.choice(["", "", "Packages/", "a/b/"]) + s + rng.choice(["", ".rpm"])
 
 
@@ -107,6 +107,12 @@ def generate(rng, kind, n, maxops=8):
                 if isinstance(op[6], list) and rng.random() < 0.7:
                     op[6] = {"ref": rng.randrange(2)}
         cases.append(c)
+    if kind == "rpms":
+        # at scale: one manifest that receives many packages, every one signed with another (upper-case) key
+        for m in (40, 70):
+            ops = [["Server", "x86_64", "pkg%d-0:1.%d-1.x86_64" % (i, i), "Packages/p/pkg%d.rpm" % i, "%08X" % (0xAB000000 + i * 7919), "binary",
+                    "src%d-0:1-1.src" % (i % 5)] for i in range(m)]
+            cases.append({"kind": kind, "ops": ops})
     return cases
 
 
